@@ -2,6 +2,7 @@ package symex
 
 import (
 	"fmt"
+	"strings"
 	"go/token"
 	"go/types"
 	"math/big"
@@ -269,6 +270,17 @@ func (m *Machine) sliceOp(fr *frame, x *ssa.Slice) Value {
 		hi := m.optIntChecked(fr, x.High, n, n, "slice high")
 		if lo > hi {
 			m.panicNow("slice bounds out of range [%d:%d]", lo, hi)
+		}
+		if b.Abs != nil {
+			// only the concrete prefix (human readable part and separator) of abstract bech32 text can be cut out
+			pre := b.Abs.Hrp + "1"
+			if strings.HasPrefix(b.Abs.Ctor, "bech32:") && hi <= len(pre) {
+				return StrVal{S: pre[lo:hi]}
+			}
+			if lo == 0 && hi == n {
+				return b
+			}
+			m.unsupported("substring of an abstract %s string", b.Abs.Ctor)
 		}
 		if b.B == nil {
 			return StrVal{S: b.S[lo:hi]}
